@@ -276,6 +276,14 @@ pub fn run(out_prefix: &str, shards: usize, families: &[String], seed: u64, full
                     emit(&mut out, &mut stats, &p, false);
                 }
             }
+            // small exhaustive families over bytes at the edges of the byte range
+            "edge" => {
+                for alpha in [&[0x01u8, 0x02][..], &[0xFE, 0xFF][..], &[0x00, 0x7F][..], &[0x80, 0x01][..]] {
+                    for p in gen::family(alpha, 2, 2) {
+                        emit(&mut out, &mut stats, &p, false);
+                    }
+                }
+            }
             "ci" => {
                 for p in gen::family(b"aAb", 2, 2) {
                     emit(&mut out, &mut stats, &p, true);
